@@ -135,6 +135,20 @@ def _run_rot(case):
     c, s_ = math.cos(case["alpha"]), math.sin(case["alpha"])
     exp = np.stack([c * F[:, 0] - s_ * F[:, 1], s_ * F[:, 0] + c * F[:, 1], F[:, 2]], axis=1)
     resid = {"rot_tight": relmax(F2, exp)}
+    # the point straight below the cluster's centre (theta = 0 in the solver's frame) and its immediate surroundings: the field is one
+    # continuous vector field there, and it turns with cluster and polarization like everywhere else (F134)
+    import holopy as hp
+    cen0 = np.mean([m["c"] for m in case["cluster"]["members"]], axis=0)
+    eps_ = 1e-7
+    ring = np.array([[0, 0], [eps_, 0], [0, eps_], [-eps_, 0], [0, -eps_], [eps_ * 0.6, eps_ * 0.8]])
+    def axis_pts(c0):
+        return hp.detector_points(x=c0[0] + ring[:, 0], y=c0[1] + ring[:, 1], z=np.zeros(len(ring)))
+    A = _field(axis_pts(cen0), s, o, _ms(case)).values
+    resid["axis_continuity"] = fnum(float(np.abs(A - A[0]).max() / max(np.abs(A).max(), 1e-300)))
+    cen1 = np.mean([m["c"] for m in rc["scat"]["members"]], axis=0)
+    A2 = _field(axis_pts(cen1), s2, rc["optics"], _ms(case)).values[0]
+    expA = np.array([c * A[0, 0] - s_ * A[0, 1], s_ * A[0, 0] + c * A[0, 1], A[0, 2]])
+    resid["rot_on_axis"] = fnum(float(np.abs(A2 - expA).max() / max(np.abs(A).max(), 1e-300)))
     # the cross sections of the solution are invariant under the joint rotation (cluster and polarization together),
     # and a cluster of non-absorbing spheres absorbs nothing
     from holopy.scattering import calc_cross_sections
@@ -320,8 +334,10 @@ def _tol(k, obs=None):
         return 1e-5
     if k == "perm_default_any":
         return 1e-4
-    if k == "rot_tight":
+    if k in ("rot_tight", "rot_on_axis"):
         return 3e-6
+    if k == "axis_continuity":
+        return 1e-5        # points 1e-7 apart: a smooth field changes by ~1e-7 k there
     if k == "many_weak_spheres_vs_superposition":
         return 5e-2
     if k == "rot_g":
